@@ -361,6 +361,7 @@ class Shared:
         self.asked = []        # (value of the test, node, decision)
         self.counter = 0
         self.modconst = {}
+        self.inits = []        # (buffer name, value it was (re)bound to, statement) in evaluation order
         self.envs = []         # environment of the evaluation and of every helper evaluation it inlined
         self.divs = []         # (numerator value, denominator value, node) of every evaluated division
 
@@ -396,6 +397,7 @@ class GeomEval(AutoEvaluator):
         self.cond = self._oracle
         self.skip = None
         self.raised = False
+        self.nested = set()
         self.locals_ = set()
         if fn is not None:
             a = fn.args
@@ -802,11 +804,18 @@ class GeomEval(AutoEvaluator):
         if len(node.args) > len(params):
             return NotImplemented
         env, alias = {}, {}
+        if fn in self.nested:
+            env = {k: v for k, v in self.env.items() if not k.startswith("<init:")}
+            alias = dict(self.alias)
         kwonly = [x.arg for x in a.kwonlyargs]
+
+        bound = set()
 
         def bind(p_, x):
             v = self.ev(x)
             env[p_] = v
+            bound.add(p_)
+            alias.pop(p_, None)
             if is_rat(v) and ident(v) is not None:
                 alias[p_] = v          # an array handed to the helper: the helper's stores go to the caller's array
         for p_, x in zip(params, node.args):
@@ -817,15 +826,16 @@ class GeomEval(AutoEvaluator):
             bind(k.arg, k.value)
         dflt = dict(zip(params[::-1], (a.defaults or [])[::-1]))
         for p_ in params:
-            if p_ not in env:
+            if p_ not in bound:
                 if p_ not in dflt:
                     return NotImplemented
                 env[p_] = self.ev(dflt[p_])
         for p_, d in zip(kwonly, a.kw_defaults):
-            if p_ not in env and d is not None:
+            if p_ not in bound and d is not None:
                 env[p_] = self.ev(d)
         sub = GeomEval(fn, self.ctx, self.rel, truth=self.truth, decisions=self.decisions, env=env, hook=self.hook,
                        sub_hook=self.sub_hook, inline=self.inline, depth=self.depth + 1, shared=self.sh, alias=alias)
+        sub.nested = set(self.nested)
         self.ctx.src.funcs_consulted.add(f"{self.rel}:{fn.name}")
         sub.run(fn.body)
         if sub.raised:
@@ -888,7 +898,13 @@ class GeomEval(AutoEvaluator):
         if isinstance(st, ast.Break):
             self.skip = "break"
             return
-        if isinstance(st, (ast.FunctionDef, ast.AsyncFunctionDef, ast.ClassDef)):
+        if isinstance(st, ast.FunctionDef):
+            # a nested helper: followed like a private module-level helper; it reads the enclosing scope
+            self.inline = dict(self.inline)
+            self.inline[st.name] = st
+            self.nested.add(st)
+            return
+        if isinstance(st, (ast.AsyncFunctionDef, ast.ClassDef)):
             return
         return super().stmt(st)
 
@@ -906,7 +922,7 @@ class GeomEval(AutoEvaluator):
 
     def _loop_open(self, st, it):
         rec = {"node": st, "iter": it, "var": None, "cells": [len(self.cells), None], "calls": [len(self.calls), None],
-               "rows": [len(self.sh.rowlog), None], "asked": [len(self.sh.asked), None], "depth": self.depth}
+               "rows": [len(self.sh.rowlog), None], "asked": [len(self.sh.asked), None], "inits": [len(self.sh.inits), None], "depth": self.depth}
         self.sh.loops.append(rec)
         return rec
 
@@ -915,6 +931,7 @@ class GeomEval(AutoEvaluator):
         rec["calls"][1] = len(self.calls)
         rec["rows"][1] = len(self.sh.rowlog)
         rec["asked"][1] = len(self.sh.asked)
+        rec["inits"][1] = len(self.sh.inits)
 
     def _for(self, st):
         it = self.ev(st.iter)
@@ -983,6 +1000,8 @@ class GeomEval(AutoEvaluator):
                 return
             self.cells.append((None, Unknown("store through an expression"), v, st))
             return
+        if isinstance(target, ast.Name) and target.id in self.buffers:
+            self.sh.inits.append((target.id, v, st))
         if isinstance(target, (ast.Tuple, ast.List)) and not isinstance(v, tuple) and is_rat(v):
             for k, t in enumerate(target.elts):
                 self._assign(t, F.fn("idx", v, F.const(k)), st)
@@ -1223,7 +1242,7 @@ def _cargs(d, assign):
 
 
 def _flat(x):
-    if isinstance(x, tuple):
+    if isinstance(x, (tuple, list)):
         for y in x:
             yield from _flat(y)
     else:
